@@ -145,7 +145,8 @@ def run(ctx: Ctx) -> int:
     acc_n = 0
     for (p, b), line, m in zip(pairs, lines, model):
         try:
-            pio.validate_platform_board(p, b)
+            # arguments as a caller builds them at run time (config file, argv): equal to the registry keys, never the same objects
+            pio.validate_platform_board("".join(list(p)), "".join(list(b)))
             impl = "ok"
         except ValueError:
             impl = "reject"
@@ -193,7 +194,7 @@ def run(ctx: Ctx) -> int:
         _AUDIT["events"] = []
         _AUDIT["on"] = True
         try:
-            pio.write_project(root, src, port=port, platform=plat, board=board, lib_deps=libs)
+            pio.write_project(root, src, port=port, platform="".join(list(plat)), board="".join(list(board)), lib_deps=libs)
         finally:
             _AUDIT["on"] = False
         replay = {"platform": plat, "board": board, "port": port, "libs": libs, "source": src}
